@@ -171,4 +171,19 @@ PROPS = {
                                   "segment-segment minimality is decided by the exact oracle (critical point of the quadratic + four endpoint distances), not by a theorem"],
         assumptions=["finite ordinates on integer grids up to 2^20; perpendicular distance only for lines through two distinct points"],
     ),
+    "C14": dict(
+        modules=["GeomVerif.Properties.C14"],
+        n_quick=10000, n_thorough=150000, thorough_seeds=4, min_theorems=4,
+        rule="point sets (1..10 points), polylines (1..3 lines of 2..6 vertices), valid polygons (star-shaped simple shells of 8..15 vertices with 0..2 "
+             "star-shaped holes strictly inside, 1..3 disjoint members, either direction, random start vertex, 8% zero-area members) and simple rings "
+             "(incl. rectangles whose start vertex lies inside the top edge), integer vertices on grids up to 1e5 around offsets up to 1e6, stride 2..4 "
+             "with arbitrary extra ordinates. APIs: MultiPointCentroid/PointsCentroidFlat, LinesCentroid/MultiLineCentroid, PolygonsCentroid/"
+             "MultiPolygonCentroid/Centroid, IsRingCounterClockwise, SignedArea. Bit-exact Float mirror + exact rational reference within 1e-9 x scale. "
+             "non-trivial = all",
+        nontrivial=lambda op, inp: True,
+        trusted_base=TB_COMMON + ["modelled: point/line/area centroid calculators, IsRingCounterClockwise (orientation from C10 taken as exact), SignedArea",
+                                  "'simple ring is CCW iff exact area > 0' is discharged per explored ring by the exact area sign, not proved",
+                                  "segment lengths in the exact reference are rational sqrt brackets of relative width 2^-128"],
+        assumptions=["valid polygons; finite ordinates; at least one segment of positive length in line inputs"],
+    ),
 }
